@@ -251,6 +251,12 @@ fn build(nn: usize, vol: &VolCfg, rng: &mut SplitMix64) -> Base {
             b.step(Op::DropF(f));
             b.step(Op::Unmount);
             b.step(Op::Mount);
+            // the second session changes the volume too, so that dropping the file system has something to write
+            // (status byte, FAT32 FS-info): a fault there is swallowed by the destructor
+            let f = b.cx.new_f();
+            b.step(Op::CreateFile { d: 0, path: p("g.txt"), new: f });
+            b.step(Op::WriteAll { f, data: content(rng, 2 * cs + 1) });
+            b.step(Op::DropF(f));
             b.step(Op::DropFs);
         }
         _ => {
